@@ -10,7 +10,7 @@ class C04(Spec):
     required_theorems = ("C04.uncommitted_noop", "C04.rollback_noop", "C04.never_committed_noop", "C04.commit_exact",
                          "C04.commit_exact_content", "C04.memSet_empty_keeps_pending", "C04.commit_exact_old_false",
                          "C04.commit_marker_writes_nothing", "C04.second_commit_notfound", "C04.forks_independent",
-                         "C04.ops_commute")
+                         "C04.ops_commute", "C04.commit_exact_content_full", "C04.forks_independent_full")
     partial = ("C04.commit_exact_content",)
     level_text = ("Lean 4 theorems over the store LTS (state = configuration, record map, pending-tree map, node cache; labels "
                   "Set/MemSet/Commit/Rollback/Get/restart; transition functions = the executable model of mavl.go used by "
@@ -35,7 +35,8 @@ class C04(Spec):
                   "pending state stays readable by its own root hash through the global cache — not a violation (the property speaks "
                   "of reads at committed roots) — and the memTree defects at committed roots are C02's findings. Concurrent bursts "
                   "only contain requests on distinct roots (those are the ones ops_commute covers); Commit/Commit commutation at the "
-                  "record level is not proved. `Consistent` as in C01.load_save_partial.")
+                  "record level is not proved. commit_exact_content_full / forks_independent_full drop `Consistent` for stores without the height prefix "
+                  "('... or Collision H'); with the prefix the `Consistent` versions remain.")
     assumptions = (
         "sync.Map operations and one batch write are atomic (labels are atomic steps)",
         "goleveldb behaves as a key/value map with atomic batches",
